@@ -370,13 +370,14 @@ fn apply_inner(
     #[cfg(resvg_verif)]
     crate::verif::log(|| {
         format!(
-            "filter_region {} {} {} {} source {} {}",
+            "filter_region {} {} {} {} source {} {} id {}",
             region.x(),
             region.y(),
             region.width(),
             region.height(),
             source.width(),
-            source.height()
+            source.height(),
+            filter.id()
         )
     });
 
